@@ -132,6 +132,12 @@ def verify (s : State) : List Node → State × VR
     else if n.blk.connOk then verify (s.markValid n.blk.hash) rest
     else (markAllInvAnc (s.markFailed n.blk.hash) (rest.map (·.blk.hash)), .rule)
 
+/-- the fork point of a branch: the parent of its last node (the node itself if the branch is empty) -/
+def forkOf (br : List Node) (h : Hash) : Hash :=
+  match br.getLast? with
+  | some m => m.blk.parent
+  | none => h
+
 /-- `getReorganizeNodes`: (state with marks, detach hashes tip first, attach nodes fork child first);
 both lists empty when the branch contains a known-invalid node (the nodes above it get invalidAncestor). -/
 def getReorgNodes (s : State) (n : Node) : State × List Hash × List Node :=
@@ -141,10 +147,7 @@ def getReorgNodes (s : State) (n : Node) : State × List Hash × List Node :=
     let good := br.takeWhile (fun m => !(s.status m.blk.hash).knownInvalid)
     if good.length < br.length then (markAllInvAnc s (good.map (·.blk.hash)), [], [])
     else
-      let fork := match br.getLast? with
-        | some m => m.blk.parent
-        | none => n.blk.hash
-      (s, s.best.takeWhile (· != fork), br.reverse)
+      (s, s.best.takeWhile (· != forkOf br n.blk.hash), br.reverse)
 
 /-- `reorganizeChain`: verify first; only if every attach node passes, disconnect `detach` (tip
 first) and connect `attach`. On failure nothing but statuses changes. -/
